@@ -499,7 +499,16 @@ pub fn run_seeded(hs: &HistSeed, profiles: &[Profile], oracle: &mut dyn Oracle, 
     let mut d = Driver::new(cfg, oracle);
     d.record_trace = trace;
     let mut ok = true;
+    for c in gen::prelude(profile, hs, cfg) {
+        if !d.step(&c) {
+            ok = false;
+            break;
+        }
+    }
     for seed in &hs.ops {
+        if !ok {
+            break;
+        }
         match gen::resolve(seed, &d.r.m, profile) {
             Some(call) => {
                 if !d.step(&call) {
